@@ -301,7 +301,7 @@ Section Total.
   Lemma chown_gen_total slm p uid gid : res_ok_if (sized p) (snd (chown_gen slm s v p uid gid)).
   Proof.
     unfold chown_gen. pose proof (nf p slm) as Hf. pose proof (child_get p slm) as Hg.
-    destruct ((v_idm v && negb (us_admin (v_user v))) || win v); [fin|].
+    destruct (win v); [fin|].
     destruct (sr_child (search_node s v p slm)) as [c|]; [|fin].
     specialize (Hg c eq_refl). brk_ok.
   Qed.
